@@ -124,6 +124,10 @@ func c17ptCallback(fl *ast.FuncLit) (guards []string, action string, err error) 
 		if s == "atomic.StoreUint32(&s.reuseBuffer, 0)" {
 			continue
 		}
+		if strings.HasPrefix(s, "verifTimerYield(") {
+			// verif hook (no-op without the build tag): the yield point at the start of the timer callbacks (C02, Gen ProxyGen)
+			continue
+		}
 		if is, ok := st.(*ast.IfStmt); ok && is.Init == nil && is.Else == nil && c17ptIsReturnOnly(is.Body) {
 			n, ok := c17ptGuardNames[src(is.Cond)]
 			if !ok {
